@@ -2,7 +2,11 @@ package main
 
 import (
 	"fmt"
+	"regexp"
+	"sort"
 	"strings"
+
+	"github.com/glycerine/zygomys/v9/zygo"
 
 	"verif/harness/lib"
 )
@@ -136,7 +140,7 @@ func generated(rng *lib.Rng) []Prog {
 	add("symnum-fresh", `[(symnum (quote brandnew1)) (symnum (quote brandnew2))]`)
 	add("symbol-order-types", `[(< (quote error) (quote packageScope)) (< (quote snoopy) (quote weather)) (< (quote hornet) (quote hellcat))]`, "site:gotypereg.go:ImportBaseTypes")
 	add("symbol-order-builtins", `[(< (quote car) (quote cdr)) (< (quote append) (quote aget)) (< (quote aaa) (quote bbb)) (< (quote str) (quote len))]`, "site:environment.go:NewZlispWithFuncs")
-	add("gensym", `[(gensym) (gensym) (str (gensym))]`)
+	add("gensym", `[(gensym) (gensym) (str (gensym))]`, "generated-names")
 	// scopes, packages, closures
 	add("package-str", `(def foo (package "foo" { A := 1; B := "two"; Cc := 3.5; D := [1 2]; e := (hash a:1) })) (str foo)`, "site:scopes.go:Show")
 	add("package-shared-value", `(def foo (package "foo" { A := (hash a:1 b:2); B := A; C := A; D := [A A] })) (str foo)`, "site:scopes.go:Show", "shared")
@@ -150,7 +154,11 @@ func generated(rng *lib.Rng) []Prog {
 	add("error-arity", `(defn f [a b] a) (f 1 2 3)`, "error-candidates")
 	add("error-type", `(+ 1 "a")`, "error-candidates")
 	add("error-dot", `(def h (hash a:1 b:2)) h.zz`, "error-candidates")
-	add("infix", `{a := 3; b := a * 2 + 1} [a b {a < b}]`)
+	add("infix", `{a := 3; b := a * 2 + 1} [a b {a < b}]`, "infix")
+	add("infix-index", `(def a [10 20 30]) (def h (hash x:1 y:2)) [{a[1] + a[2]} {a[0] * 2} {h.x + h.y}]`, "infix")
+	add("infix-index-assign", `(def a [10 20 30]) {a[0] = 5} {b := a[2] * 2 + a[0]} (def h (hash x:1)) {h.x = 7} [a b h]`, "infix")
+	add("anon-arity-error", `((fn [x] x) 1 2)`, "error-candidates", "generated-names")
+	add("generated-names", `(def f (fn [x] x)) (defn g [] (for [(def i 0) (< i 2) (set i (+ i 1))] i)) [(str f) (gensym) (gensym "tmp") (str (fn [y] y)) (g)]`, "generated-names")
 	add("macro", `(defmac when2 [c & body] ^(cond ~c (begin ~@body) nil)) (when2 true 1 2 3)`)
 	add("sort-arith", `(def a [3 1 2]) (def s 0) (for [(def i 0) (< i 3) (set i (+ i 1))] (set s (+ s (aget a i)))) s`)
 	add("println-many", `(println "a") (printf "%v %v\n" (str [1 2 (hash x:1 y:2)]) "s") (print 1 2 3)`, "stdout")
@@ -158,5 +166,42 @@ func generated(rng *lib.Rng) []Prog {
 	add("env-globals-hash-of-fns", `(def h (hash f:car g:cdr h:(fn [x] x))) (str h)`)
 	add("chars-raw", `[(str (raw "abc")) (str 'c') (str 1.5) (str (quote (a b c)))]`)
 	add("cli-countcalls", cliPrefix+`(def a (+ 1 2)) (def b (* a 3)) (def c (- b 1)) (def l (list a b c)) (def s (str l)) (len s) (car l) (cdr l) (append [1] 2) (concat "a" "b")`, "site:repl.go:sortedCountNames", "stdout", "cli")
+	// error sweep: every builtin called with arguments whose Go representation holds pointers
+	// (hash, record, function, closure, array, package, pointer) in 1-3 positions; mostly errors.
+	// The text of every error (and every value) must be the same in every run.
+	for _, sw := range errorSweeps() {
+		add(sw[0], eachLinePrefix+sw[1], "error-sweep", "error-candidates")
+	}
 	return ps
+}
+
+var sweepSkip = regexp.MustCompile(`^(sys|system|random|now|timeit|sleep|owritef|writef|save|bsave|bload|go|makeChan|<!|>!|readline|exit|stop|rmsym|setenv|getenv|slurpf|readf|_closdump|dump|registerDemoFunctions|source|req|input|gob|greenpack|print|println|printf|sprintf|import|togo|fromgo|struct|defmap|msgmap|msgpack-map|declare-msgpack-map|&|var|func|interface|method|field|arrayOf|sliceOf|pointerTo|array|slice|makeArray|raw64|unbase64)$`)
+
+func errorSweeps() [][2]string {
+	names := []string{}
+	for n := range zygo.AllBuiltinFunctions() {
+		if !sweepSkip.MatchString(n) {
+			names = append(names, n)
+		}
+	}
+	sort.Strings(names)
+	kinds := [][2]string{
+		{"hash", `(def X (hash b:2 c:[1 2] d:(hash e:1)))`},
+		{"record", `(def X (snoopy cry:"a" pack:[1 2]))`},
+		{"fn", `(def X (fn [x] x))`},
+		{"closure", `(def X ((fn [a] (fn [b] (+ a b))) 1))`},
+		{"array", `(def X [1 (hash a:1) (fn [y] y)])`},
+	}
+	var out [][2]string
+	for _, k := range kinds {
+		var sb strings.Builder
+		sb.WriteString(k[1] + "\n(def H (hash a:1))\n")
+		for _, n := range names {
+			fmt.Fprintf(&sb, "(%s X)\n(%s X X)\n(%s H X)\n(%s H X 3)\n(%s 1 X)\n", n, n, n, n, n)
+		}
+		// the keyed operations with an unhashable key
+		sb.WriteString("(hset H X 3)\n(hget H X)\n(hdel H X)\n(hash X 1)\n(hget H X 0)\n(aget [1 2] X)\n(aset [1 2] X 1)\n{X + 1}\n(X 1 2 3)\n(X)\n")
+		out = append(out, [2]string{"errsweep-" + k[0], sb.String()})
+	}
+	return out
 }
